@@ -14,7 +14,12 @@ Definition lit_val (l : lit) : val :=
   | LFloat n k => VRat (Qred (Qmake n (Z.to_pos (Z.pow 2 (Z.of_N k)))))
   | LBool b => b2v b
   | LStr s => VStr s
+  | LTemporal _ _ => VNull       (* never used: see lit_eval *)
   end.
+(* a date/time literal has no value in this model (None = outside the value model): a theorem of the form
+   `eval (fold r) = eval r` therefore FORBIDS a folder to decide anything about it -- folding
+   `@2020-01-01T00:00:00Z == @2020-01-01T00:00:00+00:00` to false (F17) would turn None into Some *)
+Definition lit_eval (l : lit) : option val := if is_temporal_lit l then None else Some (lit_val l).
 
 Definition qtrunc (q : Q) : Z := Z.quot (Qnum q) (Zpos (Qden q)).
 
@@ -70,7 +75,7 @@ Definition and3 (x y : val) : val := eval_bop And x y.
 Fixpoint eval_doc (env : list val) (e : pexpr) : option val :=
   match e with
   | PCol i => Some (nth i env VNull)
-  | PLit l => Some (lit_val l)
+  | PLit l => lit_eval l
   | PBinE o l r =>
       match is_eq_op o, is_null_lit l || is_null_lit r with
       | Some negated, true =>
